@@ -144,6 +144,50 @@ def seeded_cache(ctx):
             return
 
 
+
+def unreachable_dc(ctx):
+    """a previously retrieved seed key in the cache, the clock past the interval it covers, and a domain controller that cannot be reached
+    (connection refused, timeout, name resolution failure — any OSError) or answers with an error: the public protect functions either
+    fail or emit a blob naming the interval of the clock — never a blob naming the (past) interval of the seed at hand"""
+    import asyncio, socket
+    import dpapi_ng, dpapi_ng._client as c
+    import gen
+    from dpapi_ng._blob import DPAPINGBlob, ProtectionDescriptor
+    sid = "S-1-5-21-1-2-3-1103"
+    sd = ProtectionDescriptor.parse(sid).get_target_sd()
+    old = (c.time, c._sync_get_key, c._async_get_key)
+    try:
+        for fault in (ConnectionRefusedError, socket.timeout, socket.gaierror, OSError, ConnectionResetError, ValueError):
+            for (seedpos, nowpos) in (((361, 5, 5), (361, 5, 6)), ((361, 5, 31), (361, 6, 0)), ((361, 31, 31), (362, 0, 0)), ((361, 5, 5), (361, 9, 9))):
+                for use_async in (False, True):
+                    ns = ticks_to_ns(((nowpos[0] * 32 + nowpos[1]) * 32 + nowpos[2]) * B + 17)
+                    c.time = type("T", (), {"time_ns": staticmethod(lambda ns=ns: ns)})
+
+                    def sgk(*a, **kw):
+                        raise fault("scripted fault")
+
+                    async def agk(*a, **kw):
+                        raise fault("scripted fault")
+                    c._sync_get_key, c._async_get_key = sgk, agk
+                    cache = c.KeyCache()
+                    cache._store_key(sd, gen.make_env(l0=seedpos[0], l1=seedpos[1], l2=seedpos[2], l1_key=b"\x11" * 64, l2_key=b"\x22" * 64, root_key_identifier=RK))
+                    inp = {"scenario": "unreachable_dc", "fault": fault.__name__, "cached_seed_position": list(seedpos), "clock_interval": list(nowpos), "async": use_async, "time_ns": ns}
+                    try:
+                        blob = asyncio.run(dpapi_ng.async_ncrypt_protect_secret(b"x", sid, server="dc01.domain.test", root_key_identifier=RK, cache=cache)) if use_async else \
+                            dpapi_ng.ncrypt_protect_secret(b"x", sid, server="dc01.domain.test", root_key_identifier=RK, cache=cache)
+                    except Exception:  # noqa  (failing is the right outcome)
+                        ctx.count("unreachable_dc:error")
+                        continue
+                    ctx.count("unreachable_dc:blob")
+                    k = DPAPINGBlob.unpack(blob).key_identifier
+                    if (k.l0, k.l1, k.l2) != nowpos:
+                        ctx.violation("with the domain controller unreachable a new blob names the interval of a cached seed key, not the interval of the clock",
+                                      inp, str((k.l0, k.l1, k.l2)), "an error, or " + str(nowpos))
+                        return
+    finally:
+        c.time, c._sync_get_key, c._async_get_key = old
+
+
 def advancing_clock(ctx):
     """a clock that moves during the call: the key identifier must name the interval of ONE instant the clock showed
     (L0, L1 and L2 taken from different readings can name a key hours or a year in the past)"""
@@ -263,6 +307,7 @@ def run(ctx):
                           {"time_ns": ns, "filetime": ns // 100 + EPOCH}, out, exp)
     ctx.compare_batch(cases, nontrivial=lambda line, impl: True)
     advancing_clock(ctx)
+    unreachable_dc(ctx)
     seeded_cache(ctx)
     cache_histories(ctx)
 
@@ -285,6 +330,12 @@ def search(ctx, broken, disagreements):
 
 def replay(ctx, payload):
     v = payload["violation"]
+    if v["input"].get("scenario") == "unreachable_dc":
+        c2 = type(ctx)(ctx.prop, "quick", ctx.seed)
+        unreachable_dc(c2)
+        for x in c2.violations:
+            print(" ", x["what"], x["input"], x["observed"])
+        return not c2.violations
     if "cached_seed_position" in v["input"]:
         i = v["input"]
         outs = [seeded_case(i["time_ns"], tuple(i["cached_seed_position"]), e) for e in (False, True)]
